@@ -196,18 +196,14 @@ impl ConstantFolding {
             BinaryOp::Add => Some(ScalarValue::Int64(left.checked_add(right)?)),
             BinaryOp::Subtract => Some(ScalarValue::Int64(left.checked_sub(right)?)),
             BinaryOp::Multiply => Some(ScalarValue::Int64(left.checked_mul(right)?)),
-            BinaryOp::Divide => {
-                if right == 0 {
-                    None
-                } else {
-                    Some(ScalarValue::Int64(left / right))
-                }
-            }
+            // not folded (left to the runtime kernel): division by zero and MIN / -1
+            BinaryOp::Divide => Some(ScalarValue::Int64(left.checked_div(right)?)),
             BinaryOp::Modulo => {
                 if right == 0 {
                     None
                 } else {
-                    Some(ScalarValue::Int64(left % right))
+                    // MIN % -1 is 0, which `%` cannot compute without overflowing
+                    Some(ScalarValue::Int64(left.wrapping_rem(right)))
                 }
             }
             BinaryOp::Eq => Some(ScalarValue::Boolean(left == right)),
